@@ -28,7 +28,7 @@ def export(tier, scratch):
         raise RuntimeError("BatchGen export failed: " + (r.error or r.stdout[-1500:]))
     recs = tlc.read_ndjson(out)
     table = tlc.read_ndjson(out2)[0]["t"]
-    return recs, table, r, c["MaxSize"]
+    return recs, table, r, 5   # PackMax of BatchGen
 
 
 def index_conformance(recs, nproc=16):
